@@ -3,7 +3,7 @@
 From Coq Require Import List Bool Permutation.
 Import ListNotations.
 From Mos Require Import Str Xml Outcome Seq Spec Elements Classify Messages Merge Proto.
-From Mos.proofs Require Import Lift Examples StoryStable NoDupFacts NoDupExample.
+From Mos.proofs Require Import XmlFacts Lift Examples StoryStable NoDupFacts NoDupExample.
 
 (* For every running order with unique story IDs (any number of stories, any other
    children of roCreate anywhere), every story-level class k and every schema-shaped
@@ -82,3 +82,14 @@ Theorem C01_unique_ids_example :
   = ex_history_ids.
 Proof. exact ex_fresh_history. Qed.
 Print Assumptions C01_unique_ids_example.
+
+(* The hypotheses `no_bad skey / ikey ... = true`, `wf_rc`, `wf_ro` that appear in the theorems of
+   C01-C06, C12 and C15 (they used to exclude children without their ID tag, on which the
+   unrepaired find_child raised AttributeError) are no restriction since repair F28: they hold
+   of every list / element, and wf_ro of every document that has a roCreate. *)
+Theorem C01_well_formedness_is_no_restriction :
+  (forall tag idtag l, no_bad (ckey tag idtag) l = true) /\
+  (forall rc, wf_rc rc = true) /\
+  (forall ro, wf_ro ro = true <-> rc_of ro <> None).
+Proof. split; [exact no_bad_ckey | split; [exact wf_rc_true | exact wf_ro_iff]]. Qed.
+Print Assumptions C01_well_formedness_is_no_restriction.
